@@ -164,7 +164,7 @@ def classify(run, side, unit_file):
         elif kind == "assertion":
             c = clause_at(pline) if pline else None
             ob["label"] = "assert"
-        if not ob.get("core") and ob.get("label") in (None, "assert", "std-trait-postcondition") and ob.get("fn"):
+        if not ob.get("core") and (ob.get("label") in (None, "assert", "std-trait-postcondition") or str(ob.get("label")).startswith("~")) and ob.get("fn"):
             # an unlabelled invariant / proof assertion / operator postcondition inside function F: F's contract is not
             # established, so the failure counts against every property one of F's clauses is core for
             u = set()
